@@ -3,11 +3,112 @@ package main
 import (
 	"go/ast"
 	"go/token"
+	"strconv"
 )
 
 func collect(repo string, f *facts) {
 	repoRoot = repo
 	timeFacts(f)
+	paramFacts(f)
+	parseFacts(f)
+}
+
+// strList returns the string literals of a package-level `[]string{...}` variable.
+func strList(rel, name string) []string {
+	e := pkgValue(rel, name)
+	cl, ok := e.(*ast.CompositeLit)
+	if !ok {
+		return nil
+	}
+	var out []string
+	for _, el := range cl.Elts {
+		bl, ok := el.(*ast.BasicLit)
+		if !ok || bl.Kind != token.STRING {
+			return nil
+		}
+		v, err := strconv.Unquote(bl.Value)
+		if err != nil {
+			return nil
+		}
+		out = append(out, v)
+	}
+	return out
+}
+
+// ---- defs/params.go: every integer / duration variable ----
+func paramFacts(f *facts) {
+	for _, name := range []string{"InputLogMaxRecordBytes", "InputLogMaxMessageBytes", "InputLogMinRecordBytesToPool",
+		"InputFlushInterval", "ListenerLineBufferSize", "IntermediateBufferMaxNumLogs", "IntermediateBufferMaxTotalBytes",
+		"IntermediateBufferedChannelSize", "IntermediateChannelTimeout", "IntermediateFlushInterval",
+		"BufferMaxNumChunksInQueue", "BufferMaxNumChunksInMemory", "BufferShutDownTimeout",
+		"ForwarderMaxPendingChunksForAck", "ForwarderConnectionTimeout", "ForwarderHandshakeTimeout",
+		"ForwarderBatchSendMinimumSpeed", "ForwarderBatchSendTimeoutBase", "ForwarderBatchAckTimeout",
+		"ForwarderAckerStopTimeout", "ForwarderRetryInterval", "ForwarderPingInterval"} {
+		key := "defs_" + name
+		f.note[key] = "defs/params.go " + name + " (durations in nanoseconds)"
+		f.nat[key] = nil
+		if v, ok := evalInt("defs/params.go", pkgValue("defs/params.go", name), 0); ok {
+			f.nat[key] = ip(v)
+		}
+	}
+}
+
+// ---- C09 / C07: input/syslogparser, input/syslogprotocol ----
+func parseFacts(f *facts) {
+	f.note["facility_names"] = "syslogprotocol.FacilityNames"
+	f.strs["facility_names"] = strList("input/syslogprotocol/syslogprotocol.go", "FacilityNames")
+	f.note["severity_names"] = "syslogprotocol.SeverityNames"
+	f.strs["severity_names"] = strList("input/syslogprotocol/syslogprotocol.go", "SeverityNames")
+	// minimal length tested by Parse: `len(remaining) < N || remaining[0] != '<'`
+	f.note["parse_min_len"] = "syslogparser.go Parse: N of `len(remaining) < N || remaining[0] != '<'`"
+	f.nat["parse_min_len"] = nil
+	f.note["parse_pri_suffix_safe"] = "syslogparser.go Parse: the '>1' test on the PRI token cannot slice out of bounds (uses strings.HasSuffix, or is guarded by a length test)"
+	f.bool["parse_pri_suffix_safe"] = nil
+	f.note["parse_clean_when_truncated"] = "syslogparser.go Parse: util.CleanUTF8 runs whenever the message was truncated"
+	f.bool["parse_clean_when_truncated"] = nil
+	if fd := fn("input/syslogparser/syslogparser.go", "Parse", "syslogParser"); fd != nil {
+		unsafeSuffix := false
+		hasSuffix := false
+		cleanCond := ""
+		truncVar := ""
+		inspect(fd.Body, func(n ast.Node) bool {
+			switch x := n.(type) {
+			case *ast.BinaryExpr:
+				if x.Op == token.LOR {
+					if v, ok := cmpLit(x.X, "len(remaining)", token.LSS); ok && f.nat["parse_min_len"] == nil {
+						f.nat["parse_min_len"] = ip(v)
+					}
+				}
+			case *ast.SliceExpr:
+				if src(x) == "val[len(val)-2:]" {
+					unsafeSuffix = true
+				}
+			case *ast.CallExpr:
+				if src(x.Fun) == "strings.HasSuffix" && len(x.Args) == 2 && src(x.Args[0]) == "val" {
+					hasSuffix = true
+				}
+			case *ast.IfStmt:
+				if contains(x.Body, func(m ast.Node) bool {
+					c, ok := m.(*ast.CallExpr)
+					return ok && src(c.Fun) == "util.CleanUTF8"
+				}) {
+					cleanCond = src(x.Cond)
+				}
+				if src(x.Cond) == "len(remaining) > defs.InputLogMaxMessageBytes" {
+					for _, st := range x.Body.List {
+						if as, ok := st.(*ast.AssignStmt); ok && len(as.Lhs) == 1 && src(as.Rhs[0]) == "true" {
+							truncVar = src(as.Lhs[0])
+						}
+					}
+				}
+			}
+			return true
+		})
+		f.bool["parse_pri_suffix_safe"] = bp(hasSuffix && !unsafeSuffix)
+		ok := truncVar != "" && (cleanCond == truncVar+" || record.RawLength >= defs.InputLogMaxRecordBytes" ||
+			cleanCond == "record.RawLength >= defs.InputLogMaxRecordBytes || "+truncVar || cleanCond == truncVar)
+		f.bool["parse_clean_when_truncated"] = bp(ok)
+	}
 }
 
 // ---- C13: transform/tparsetime ----
